@@ -462,12 +462,30 @@ def scope_key(repo, res):
         res.fail(key, f"generation guard `{gt}` does not consult the scope this partition writes to", m.line(guard))
     key = f"{gp.key}:store-key"
     res.ob(key)
-    if "self.set_var(quadrature_rule, domain, v, vaccess)" not in s_gp:
-        res.fail(key, "generated values are not stored under the key of the partition being generated", m.line(gp.node))
+    def _bound(call, callee):
+        ps = [p_ for p_ in callee.params if p_ != "self"]
+        b_ = {ps[i]: ast.unparse(a) for i, a in enumerate(call.args) if i < len(ps)}
+        b_.update({k.arg: ast.unparse(k.value) for k in call.keywords if k.arg})
+        return b_
+
+    sv_calls = [c for c in calls_in(gp.node) if (call_name(c) or "").endswith(".set_var")]
+    ok_store = bool(sv_calls)
+    for c in sv_calls:
+        b_ = _bound(c, sv)
+        if b_.get("quadrature_rule") != "quadrature_rule" or b_.get("domain") != "domain":
+            ok_store = False
+    if not ok_store:
+        res.fail(key, "generated values are not stored under the key (domain, quadrature_rule) of the partition being generated", m.line(gp.node))
     key = f"{gp.key}:operand-lookup"
     res.ob(key)
-    if "vops = [self.get_var(quadrature_rule, domain, op) for op in v.ufl_operands]" not in s_gp:
-        res.fail(key, "operands are not looked up in the scope of the partition being generated", m.line(gp.node))
+    gv_calls = [c for c in calls_in(gp.node) if (call_name(c) or "").endswith(".get_var")]
+    ok_lookup = bool(gv_calls)
+    for c in gv_calls:
+        b_ = _bound(c, gv)
+        if b_.get("quadrature_rule") != "quadrature_rule" or b_.get("domain") != "domain":
+            ok_lookup = False
+    if not ok_lookup or "ufl_operands" not in s_gp:
+        res.fail(key, "operands are not looked up in the scope (domain, quadrature_rule) of the partition being generated", m.line(gp.node))
     init = m.func("IntegralGenerator.init_scopes")
     key = f"{init.key}:one-scope-per-rule"
     res.ob(key)
